@@ -7,7 +7,7 @@ for p in sorted(glob.glob('/verif/seeded/*/meta.json')):
     name = os.path.basename(os.path.dirname(p))
     rows.append((name, m))
 out = ["# Seeded breaking changes and the checks that catch them", "",
-       "Every change below (except the one row marked AUTHOR-MADE) was produced by a separate agent that saw only the text of one property and a",
+       "Every change below (except the rows marked AUTHOR-MADE) was produced by a separate agent that saw only the text of one property and a",
        "scratch worktree of OxiDD (rows whose note says \"round 2\" come from a later, smaller round whose prompts also named areas to aim at). For each one I confirmed in a scratch worktree that OxiDD's own test suite",
        "still passes with the change (`cargo test --workspace`, 109 tests incl. doc tests) and that the agent's",
        "demonstration fails with the change and passes without it. `bin/seeded_run <name> <checks>` then applies",
